@@ -18,6 +18,9 @@ EXPLANATION = (
 EXPLANATION += (
     ' N4 a delegating built-in passes its parameters on in declaration order. N5 out-of-range gives None: in the hand-written index arithmetic of the views every returned Some(..) is dominated by a successful lookup of the start index in the string (gate on a call that consumed string data and the index, a loop that looks one unit up per step, or a comparison with a length) and of every index the returned value depends on.'
 )
+EXPLANATION += (  # round-3 supplement
+    ' N5 is path-based: every path to a returned Some passes a validating edge (successful lookup, per-unit loop, comparison with a length, or index == 0).'
+)
 ASSUMPTIONS = [
     "Rust std / inetnum methods implement their documented meaning (trusted); only the binding of names to those methods is decided",
 ]
